@@ -5,6 +5,7 @@ import Rare.Proofs.C16Special
 import Rare.Proofs.C16Src
 import Rare.Proofs.C16Key
 import Rare.Proofs.C16SrcEsc
+import Rare.Proofs.C16Ctx
 import Rare.Gen.C16
 /-!
 Property C16: the JSON views `{.}`, `{#}`, `{.#}` of a match are valid, faithful and deterministic.
@@ -1237,5 +1238,181 @@ example : expressionPrints false false [lit "d"] [lit ".=x", lit "k=v"] (parseKe
     expressionPrints true true [lit "a", lit "b"] [] [] (lit "@") = [0x61, 0, 0x62] ∧
     expressionPrints false true [] [lit "src=me"] (parseKeyValuesIntoMap [lit "src=me"]) (lit "src") = lit "<args>" := by
   decide +kernel
+
+/-! ## Round 4c: ONE context object over a HISTORY of matches
+
+The extractor does not build a context per match.  Every worker goroutine owns one
+`SliceSpaceExpressionContext` and `processLineSync` re-points it at each matched line; sources are mixed in
+the worker's input and line numbers restart at 1 in every source.  "The same match always yields the same
+text" is therefore a statement about an object with a past: the text must be a function of the CURRENT
+match only. -/
+
+/-- **The worker's loop is the map of a context-free function.**  One worker (`runWorker`: a context created
+once with the name table, then `processLineSync` for every line it is handed, expression `{k₁}|{k₂}|…` over
+arbitrary keys) produces, for EVERY history `hs` – any sources in any order, equal or restarting line numbers,
+unmatched lines in between, the same match again – exactly what the context-free `extractOf` gives line by
+line (same panics too). -/
+theorem worker_history_is_map (keys : List Bytes) (nt : List (Bytes × Int)) (hs : List Hit) :
+    runWorker keys nt hs = hs.mapM (extractOf keys nt) :=
+  runWorker_eq_mapM keys nt hs
+
+/-- Pointwise: the outcome at position `i` of a history is determined by the line at position `i` alone. -/
+theorem view_is_function_of_current_match (keys : List Bytes) (nt : List (Bytes × Int)) (hs : List Hit)
+    (outs : List (Option Bytes)) (hrun : runWorker keys nt hs = .ok outs) :
+    outs.length = hs.length ∧
+    ∀ (i : Nat) (x : Hit), hs[i]? = some x → ∃ o, outs[i]? = some o ∧ extractOf keys nt x = .ok o := by
+  rw [worker_history_is_map] at hrun
+  exact mapM_ok_pointwise _ hs outs hrun
+
+/-- The state a context is in does not matter: from ANY context `c` (whatever line, indices, source and line
+number an earlier match – or nobody – left in it) `processLineSync` extracts what a fresh context would; only
+the name table, which is set at construction and never again, is kept. -/
+theorem context_state_is_irrelevant (keys : List Bytes) (c : Ctx) (h : Hit) :
+    (processLine keys c h).map (·.2) = extractOf keys c.nameTable h ∧
+    ∀ c' o, processLine keys c h = .ok (c', o) → c'.nameTable = c.nameTable := by
+  refine ⟨?_, fun c' o hp => processLine_nameTable keys c c' h o hp⟩
+  rw [processLine_eq]
+  cases extractOf keys c.nameTable h <;> rfl
+
+/-- What the keys read: a view key is `json` of (name table, indices, line) – neither the source nor the line
+number enters –, while `{src}` and `{line}` answer exactly those two fields. -/
+theorem view_key_reads_match_only (nt : List (Bytes × Int)) (h : Hit) :
+    (∀ key a b, viewFlags key = some (a, b) → keyOf nt h key = json a b nt h.indices h.line) ∧
+    keyOf nt h keySrc = .ok h.source ∧ keyOf nt h keyLine = .ok (natAscii h.lineNum) :=
+  ⟨fun key a b hv => keyOf_view nt h key a b hv, keyOf_src_line nt h⟩
+
+/-- **Aggregation key over a history.**  In the output of one worker for the expression `{key}` (a view key),
+the texts at two positions of the history are equal IF AND ONLY IF the two matches show the same captures (up
+to the letter case of true/false) – wherever the two lines stand in the history, whatever their sources and
+line numbers are (equal line numbers in different sources included).  `⇒` : a match never gets the text of
+another match; `⇐` : the same match gets the same text every time. -/
+theorem history_key_iff (key : Bytes) (named numbered : Bool) (hv : viewFlags key = some (named, numbered))
+    (nt : List (Bytes × Int)) (hs : List Hit) (outs : List (Option Bytes))
+    (hrun : runWorker [key] nt hs = .ok outs)
+    (i j : Nat) (x y : Hit) (hi : hs[i]? = some x) (hj : hs[j]? = some y)
+    (hx : x.indices ≠ []) (hy : y.indices ≠ [])
+    (tx : GoTyped nt x.indices) (ty : GoTyped nt y.indices) (hnd : (nt.map (·.1)).Nodup) :
+    outs[i]? = outs[j]? ↔ sameShown named numbered nt x.indices x.line y.indices y.line = true := by
+  obtain ⟨_, hp⟩ := view_is_function_of_current_match [key] nt hs outs hrun
+  obtain ⟨o1, ho1, he1⟩ := hp i x hi
+  obtain ⟨o2, ho2, he2⟩ := hp j y hj
+  rw [ho1, ho2]
+  unfold extractOf at he1 he2
+  simp only [hx, hy, if_false, Ctx.buildKeys] at he1 he2
+  have k1 := keyOf_view nt x key named numbered hv
+  have k2 := keyOf_view nt y key named numbered hv
+  unfold keyOf at k1 k2
+  rw [k1] at he1
+  rw [k2] at he2
+  cases h1 : json named numbered nt x.indices x.line with
+  | error e => simp [h1, bind, Except.bind] at he1
+  | ok t1 =>
+    cases h2 : json named numbered nt y.indices y.line with
+    | error e => simp [h2, bind, Except.bind] at he2
+    | ok t2 =>
+      simp [h1, bind, Except.bind, pure, Except.pure] at he1
+      simp [h2, bind, Except.bind, pure, Except.pure] at he2
+      rw [← (json_key_iff named numbered nt nt nt x.indices y.indices x.line y.line t1 t2
+        (List.Perm.refl _) (List.Perm.refl _) tx ty hnd h1 h2).1, ← he1, ← he2]
+      by_cases e1 : t1 = [] <;> by_cases e2 : t2 = [] <;> simp [e1, e2]
+
+/-- the history the seeded change `C16-json-memo-linenum` gets wrong, in the model: three one-line files
+through one worker, every match is line 1 of its source – each gets its own text; and the same match later in
+the history gets the same text again -/
+theorem history_witness :
+    (runWorker [lit "#"] []
+      [⟨lit "f1", 1, [0, 1], lit "a"⟩, ⟨lit "f2", 1, [0, 1], lit "b"⟩, ⟨lit "f3", 1, [], lit "zz"⟩,
+       ⟨lit "f1", 1, [0, 1], lit "a"⟩]).toOption
+      = some [some (lit "{\"0\": \"a\"}"), some (lit "{\"0\": \"b\"}"), none, some (lit "{\"0\": \"a\"}")] := by
+  decide +kernel
+
+/-- fields `processLineSync` assigns, from the generated event list -/
+def loadSetFields (ev : List (String × String × String)) : List String :=
+  ev.filterMap fun e => if e.1 = "set" then some e.2.1 else none
+
+/-- no assignment to the context comes after the first call the context is handed to -/
+def setsBeforeUses (ev : List (String × String × String)) : Bool :=
+  (ev.dropWhile fun e => e.1 ≠ "use").all fun e => e.1 ≠ "set"
+
+/-- fields any method of the context reads / may write, from the generated method table -/
+def methodReads (ms : List (String × List String × List String × List String × List String)) : List String :=
+  ms.flatMap fun m => m.2.1
+def methodWrites (ms : List (String × List String × List String × List String × List String)) : List String :=
+  ms.flatMap fun m => m.2.2.1
+
+/-- **The context's fields, their writers and their readers ARE the source's** (regenerated from
+pkg/extractor/sliceSpaceExpressionContext.go and extractor.go on every run).  The struct has exactly the five
+fields of `Ctx`; `processLineSync` binds the worker's context, assigns exactly `linePtr`, `indices`, `source`,
+`lineNum` (= `Ctx.load`) and only then hands the context to `IgnoreMatch` / `BuildKey`; the only constructor
+site sets `nameTable` (= `Ctx.fresh`), nothing else in the package assigns such a field; NO method of the
+context writes a field, takes its address, hands a map/slice field on, or lets the receiver escape; the
+methods read no field but the five.  A per-line memo, a cache keyed by line number, a lazily filled field –
+any state a method could carry from one match to the next – changes one of these lists. -/
+theorem context_is_repointed_per_match_source :
+    Gen.C16.ctxFields = [("linePtr", "string"), ("indices", "[]int"), ("nameTable", "map[string]int"),
+      ("source", "string"), ("lineNum", "uint64")] ∧
+    Gen.C16.ctxLoadEvents = [("bind", "expContext", "s.context"), ("set", "linePtr", "lineStringPtr"),
+      ("set", "indices", "matches"), ("set", "source", "source"), ("set", "lineNum", "lineNum"),
+      ("use", "s.ignore.IgnoreMatch", ""), ("use", "s.keyBuilder.BuildKey", "")] ∧
+    loadSetFields Gen.C16.ctxLoadEvents = ["linePtr", "indices", "source", "lineNum"] ∧
+    setsBeforeUses Gen.C16.ctxLoadEvents = true ∧
+    Gen.C16.ctxLiterals = ["asyncWorker:nameTable"] ∧ Gen.C16.ctxFieldSetsElsewhere = [] ∧
+    Gen.C16.ctxMethods =
+      [("GetMatch", ["indices", "linePtr"], [], [], []),
+       ("GetKey", ["source", "lineNum", "nameTable"], [], ["json", "array", "GetMatch"], []),
+       ("json", ["nameTable", "indices"], [], ["GetMatch"], []),
+       ("array", ["indices"], [], ["GetMatch"], [])] ∧
+    methodWrites Gen.C16.ctxMethods = [] ∧
+    (∀ f ∈ methodReads Gen.C16.ctxMethods,
+      f ∈ loadSetFields Gen.C16.ctxLoadEvents ∨ f ∈ ["nameTable"]) := by
+  decide
+
+/-- **History independence from the source's own read/write sets.**  Take the fields `processLineSync`
+assigns (`W`), the fields the context's methods may write (`MW`) and the fields they read (`R`) as the
+translator found them in /repo.  Then for ANY function `view` of the object that reads only `R`, after ANY
+history of re-pointings and method calls (`before`), a re-pointing at the match `m` and any number of further
+method calls on that match (`after`), `view` answers what it answers on the constructed object re-pointed once
+at `m`.  The only premise, `R ∩ MW = ∅`, is decided on the generated lists – with a memo field it is false
+(`frame_counterexample` shows the conclusion then fails). -/
+theorem context_history_frame_source {V β : Type} (view : Obj V → β)
+    (hv : ReadsOnly (methodReads Gen.C16.ctxMethods) view)
+    (o₀ : Obj V) (before : List (ObjStep V)) (m : Obj V) (after : List (Obj V)) :
+    view ((after.map ObjStep.method).foldl
+        (ObjStep.apply (loadSetFields Gen.C16.ctxLoadEvents) (methodWrites Gen.C16.ctxMethods))
+        (ObjStep.apply (loadSetFields Gen.C16.ctxLoadEvents) (methodWrites Gen.C16.ctxMethods)
+          (before.foldl (ObjStep.apply (loadSetFields Gen.C16.ctxLoadEvents) (methodWrites Gen.C16.ctxMethods)) o₀)
+          (.repoint m)))
+      = view (ObjStep.apply (loadSetFields Gen.C16.ctxLoadEvents) (methodWrites Gen.C16.ctxMethods) o₀ (.repoint m)) :=
+  frame _ _ _ (by decide) view hv o₀ before m after
+
+/-- `GetMatch`, `GetKey` and `array()` – the rest of the context's methods, which `Ctx.getMatch`, `Ctx.getKey`
+and `Ctx.array` mirror – statement skeletons from the AST -/
+theorem context_methods_are_source :
+    Gen.C16.getMatchOutline =
+      ["sliceIndex:=idx*2", "if idx<0||sliceIndex<0||sliceIndex+1>=len(s.indices){", "return\"\"", "}",
+       "start:=s.indices[sliceIndex]", "end:=s.indices[sliceIndex+1]", "if start<0||end<0{", "return\"\"", "}",
+       "returns.linePtr[start:end]"] ∧
+    Gen.C16.getKeyOutline =
+      ["switchkey{case\"src\":returns.sourcecase\"line\":returnstrconv.FormatUint(s.lineNum,10)case\".\":returns.json(true,false)case\"#\":returns.json(false,true)case\".#\",\"#.\":returns.json(true,true)case\"@\":returns.array()}",
+       "if idx,ok:=s.nameTable[key];ok{", "returns.GetMatch(idx)", "}", "returnstdlib.ErrorArgName"] ∧
+    Gen.C16.arrayOutline =
+      ["varsbstrings.Builder", "for i:=1;i<len(s.indices)/2;i++{", "val:=s.GetMatch(i)", "if i>1{",
+       "sb.WriteRune(expressions.ArraySeparator)", "}", "sb.WriteString(val)", "}", "returnsb.String()"] := by
+  decide +kernel
+
+/-! non-vacuity of the round-4c theorems -/
+/-- a history with two sources at the same line number; hypotheses of `history_key_iff` hold on it -/
+example : (runWorker [lit "."] [(lit "g", 1)]
+      [⟨lit "a.log", 7, [0, 1, 0, 1], lit "x"⟩, ⟨lit "b.log", 7, [0, 1, 0, 1], lit "y"⟩]).toOption
+      = some [some (lit "{\"g\": \"x\"}"), some (lit "{\"g\": \"y\"}")] ∧
+    ([(lit "g", (1 : Int))].map (·.1)).Nodup := ⟨by decide +kernel, by decide⟩
+example : GoTyped [(lit "g", 1)] [0, 1, 0, 1] :=
+  ⟨by intro p hp; simp at hp; subst hp; decide, by decide⟩
+example : (extractOf [lit "g", lit "src", lit "line", lit "@", lit "nope"] [(lit "g", 1)]
+      ⟨lit "f", 12, [0, 3, 0, 1, 2, 3], lit "a b"⟩).toOption
+    = some (some ((lit "a|f|12|a") ++ [0] ++ (lit "b|<NAME>"))) := by decide +kernel
+/-- a view that reads what the source's methods read: `ReadsOnly` is satisfiable and not trivial -/
+example : ReadsOnly (methodReads Gen.C16.ctxMethods) (fun o : Obj Nat => o "indices" + o "linePtr") :=
+  fun o o' h => by simp [h "indices" (by decide), h "linePtr" (by decide)]
 
 end Rare.C16
